@@ -17,6 +17,10 @@ LEVEL_TEXT = ('Static membership-fact and lockstep rules on the three Sampler fu
 
 
 def run(ctx):
+    from ..persist import rule_P12k
+    rule_P12k(ctx)      # ordered members are never rebuilt from the (alphabetical) group names
+    from ..pathrules import rule_T2_publish
+    rule_T2_publish(ctx)      # a half-finished checkpoint update is never published
     rule_M4(ctx)
     rule_M5(ctx)
     rule_L2_move(ctx)
@@ -28,6 +32,8 @@ def run(ctx):
     rule_T8i(ctx)
     rule_M3(ctx)
     rule_M1(ctx)      # a stored point lies inside the bound it was drawn from
+    from ..rowfacts import rule_A4
+    rule_A4(ctx)      # ... which needs the members' samples in the columns their tests read
     # ... and not inside a member the union has dropped since: proposals cached before a
     # split / trim are discarded
     from ..loader import helper_view
